@@ -181,7 +181,7 @@ def gen_comm(r, sid, klass=None, with_limits=False, with_time=False, big=False):
         reads.append(["b", str(total + inlen + 10), "-"])
         reads.append(["b", "-", "-"])
     if with_time:
-        tls = [0, 1, 999_000, MS, 50 * MS, 3000 * MS, (2 ** 31 - 1) * MS, (2 ** 31) * MS, 30 * 86400 * 1000 * MS]
+        tls = [0, 1, 999_000, MS, 50 * MS, 3000 * MS, (2 ** 31 - 1) * MS, (2 ** 31) * MS, 30 * 86400 * 1000 * MS, (2 ** 32 + 300) * MS, (2 ** 33 + 500) * MS]
         n = r.choice([1, 2, 4])
         extra = []
         for _ in range(n):
@@ -484,6 +484,8 @@ def monitors_comm(s, drv, rep):
             which = "C03" if (eff_lim is not None and kind == "ok") else ("C04" if kind == "timedout" else "C02")
             fails[which].append("read#%d: stdin was closed with %d of %d input bytes still undelivered (a read cut short must leave the rest to later reads)" % (
                 i + 1, len(inp) - int(rd["written"]), len(inp)))
+        if int(rd.get("starved", 0)) > 0 and eff_lim is not None:
+            fails["C03"].append("read#%d: cut short by the size limit, and %s time(s) poll() reported stdin writable with input pending without the library writing to it (the remaining input is not being delivered)" % (i + 1, rd["starved"]))
         if int(rd.get("starved", 0)) > 0:
             fails["C02"].append("read#%d: %s time(s) poll() reported stdin writable with input pending and the library polled again or returned without writing to it (input and its end-of-file withheld while output is being produced)" % (i + 1, rd["starved"]))
         t0, t1, dl = int(rd["t0"]), int(rd["t1"]), int(rd["deadline"])
